@@ -1,4 +1,6 @@
 import GrVerif.Proofs.Cursor
+import GrVerif.Proofs.MapBound
+import GrVerif.Proofs.PassBounds
 import GrVerif.Proofs.PassStream
 /-!
 # The null-cursor theorem through the pass engine
@@ -213,7 +215,8 @@ def MapCells (c : Ctx) (w : List Nat) : Prop :=
 
 theorem testConstraint_start (r : Rule) (c : Ctx) {l a w : List Nat} (hlw : l = a ++ w) (hcells : MapCells c w)
     (hps : r.pre < r.sort) {st : Status} (e : testConstraint r c = .ok (true, st)) :
-    ∃ i a' b', c.smap.getD (c.context + 1) none = some i ∧ l = a' ++ i :: b' ∧ r.pre ≤ a'.length ∧ r.sort ≤ r.pre + b'.length + 1 := by
+    ∃ i a' b', c.smap.getD (c.context + 1) none = some i ∧ l = a' ++ i :: b' ∧ r.pre ≤ a'.length ∧ r.sort ≤ r.pre + b'.length + 1 ∧
+      c.context ≤ c.size := by
   unfold testConstraint at e
   split at e
   · cases e
@@ -231,10 +234,45 @@ theorem testConstraint_start (r : Rule) (c : Ctx) {l a w : List Nat} (hlw : l = 
         obtain ⟨z, hz1, hz2⟩ := hbelow c.context (by omega)
         obtain ⟨hsplit, hk⟩ := split_at hz2
         have hj0 : c.context - r.pre + r.sort - 1 < w.length := (List.getElem?_eq_some_iff.mp hw0).1
-        refine ⟨z, a ++ w.take c.context, w.drop (c.context + 1), hz1, ?_, ?_, ?_⟩
+        refine ⟨z, a ++ w.take c.context, w.drop (c.context + 1), hz1, ?_, ?_, ?_, ?_⟩
         · rw [hlw, List.append_assoc, ← hsplit]
         · simp only [List.length_append, List.length_take]; omega
         · simp only [List.length_drop]; omega
+        · omega
+
+/-! ## the map is never fuller than its array -/
+
+theorem fillGo_size : ∀ (xs : List (Option Nat × Nat)) (m : Array (Option Nat)),
+    (xs.foldl (fun (m : Array (Option Nat)) (x : Option Nat × Nat) => m.setIfInBounds (x.2 + 1) x.1) m).size = m.size := by
+  intro xs
+  induction xs with
+  | nil => intro m; rfl
+  | cons x rest ih => intro m; simp only [List.foldl_cons]; rw [ih]; simp
+
+theorem fsmCells_length_le (window : List Nat) (pushed : Nat) (more : Bool) :
+    (fsmCells window pushed more).length ≤ pushed + (if more then 1 else 0) := by
+  unfold fsmCells
+  simp only [List.length_append, List.length_map, List.length_take]
+  cases more <;> simp <;> omega
+
+/-- `m_size ≤ MAX_SLOTS` and the array has `MAX_SLOTS + 2` cells -/
+theorem runFSM_size (p : PassT) (c : Ctx) (slot : Nat) : (runFSM p c slot).2.1.size + 2 ≤ (runFSM p c slot).2.1.smap.size := by
+  unfold runFSM
+  simp only []
+  split
+  · simp [Ctx.resetMap, MAX_SLOTS]
+  · simp only [Ctx.resetMap]
+    unfold fillMap
+    rw [fillGo_size]
+    have hb := fsm_stays_in_slot_map p ((ahead c.seg (MAX_SLOTS + 1) (some (fsmBack c.seg p.maxPre (p.maxPre + 1) slot 0).1)).map fun s => (c.seg.get s).gid)
+      (p.starts.getD (p.maxPre - (fsmBack c.seg p.maxPre (p.maxPre + 1) slot 0).2) 0)
+    have hl := fsmCells_length_le (ahead c.seg (MAX_SLOTS + 1) (some (fsmBack c.seg p.maxPre (p.maxPre + 1) slot 0).1))
+      (fsmScan p ((ahead c.seg (MAX_SLOTS + 1) (some (fsmBack c.seg p.maxPre (p.maxPre + 1) slot 0).1)).map fun s => (c.seg.get s).gid)
+        (p.starts.getD (p.maxPre - (fsmBack c.seg p.maxPre (p.maxPre + 1) slot 0).2) 0) MAX_SLOTS [] 0).2.1
+      (fsmScan p ((ahead c.seg (MAX_SLOTS + 1) (some (fsmBack c.seg p.maxPre (p.maxPre + 1) slot 0).1)).map fun s => (c.seg.get s).gid)
+        (p.starts.getD (p.maxPre - (fsmBack c.seg p.maxPre (p.maxPre + 1) slot 0).2) 0) MAX_SLOTS [] 0).2.2.1
+    simp only [Array.size_setIfInBounds, Array.size_replicate]
+    omega
 
 /-! ## every cell of the map holds a slot of the stream -/
 
@@ -299,8 +337,9 @@ theorem runFSM_live (p : PassT) (c : Ctx) (slot : Nat) {l : List Nat} (hl : Link
 /-! ## constraints -/
 
 theorem runConstraint_safe (k : Code) (c : Ctx) (cell : Nat) {l : List Nat} {so : Option Nat} (hjo : JO c l so)
+    (hsz : c.size + 2 ≤ c.smap.size) (hcl : cell ≤ c.size + 1)
     {i : Nat} (hcell : c.smap.getD cell none = some i) (hi : i ∈ l) {cur' : Cur} (hk : curRun ⟨0, 1, false⟩ k.instrs = some cur')
-    {w : String} (e : runConstraint k c cell = .error w) : ¬ nullFault w := by
+    {w : String} (e : runConstraint k c cell = .error w) : ¬ engineFault w := by
   unfold runConstraint at e
   split at e
   · cases e
@@ -316,36 +355,43 @@ theorem runConstraint_safe (k : Code) (c : Ctx) (cell : Nat) {l : List Nat} {so 
       exact .inl ⟨a, b, hab, by simp, by simp; omega⟩
     have ht := runLoop_track k.instrs ⟨0, 1, false⟩ cur' { vm := initVm k.data, ctx := enterCtx (c.setMap (cell : Int)) }
       ⟨l, hj, hp, fun _ y hy => by rw [his] at hy; cases hy; exact hi⟩ hk
+    have hmb : MB (enterCtx (c.setMap (cell : Int))) := by
+      refine ⟨?_, ?_, hsz⟩
+      · show (0 : Int) ≤ (cell : Int); omega
+      · show (cell : Int) ≤ (c.size : Int) + 1; omega
     split at e
     · rename_i w' hw
       cases e
       rw [hw] at ht
-      exact ht
+      intro hf
+      rcases hf with hf | hf
+      · exact ht hf
+      · exact runLoop_noMapFault k.instrs _ hmb hw hf
     · split at e
-      · cases e; exact not_nullFault_stack
+      · cases e; unfold engineFault nullFault mapFault; decide
       · cases e
 
-theorem testConstraint_go_safe (c : Ctx) (k : Code) {l : List Nat} {so : Option Nat} (hjo : JO c l so)
+theorem testConstraint_go_safe (c : Ctx) (k : Code) {l : List Nat} {so : Option Nat} (hjo : JO c l so) (hsz : c.size + 2 ≤ c.smap.size)
     (hall : ∀ j, Live l (c.smap.getD j none)) {cur' : Cur} (hk : curRun ⟨0, 1, false⟩ k.instrs = some cur') :
-    ∀ (n cell : Nat) {w : String}, testConstraint.go c k n cell = .error w → ¬ nullFault w := by
+    ∀ (n cell : Nat) {w : String}, cell + n ≤ c.size + 1 → testConstraint.go c k n cell = .error w → ¬ engineFault w := by
   intro n
   induction n with
-  | zero => intro cell w e; unfold testConstraint.go at e; cases e
+  | zero => intro cell w _ e; unfold testConstraint.go at e; cases e
   | succ n ih =>
-    intro cell w e
+    intro cell w hb e
     unfold testConstraint.go at e
     split at e
-    · exact ih _ e
+    · exact ih _ (by omega) e
     · rename_i hnn
       split at e
       · rename_i w' hw
         cases e
         cases hy : c.smap.getD cell none with
         | none => rw [hy] at hnn; simp at hnn
-        | some i => exact runConstraint_safe k c cell hjo hy (hall cell i hy) hk hw
+        | some i => exact runConstraint_safe k c cell hjo hsz (by omega) hy (hall cell i hy) hk hw
       · split at e
         · cases e
-        · exact ih _ e
+        · exact ih _ (by omega) e
 
 /-- the loader's cursor tests on a piece of code; code that does not decode stops the model with its own error -/
 def codeOK (cur : Cur) (bytes : List Nat) (isAction : Bool) : Bool :=
@@ -386,31 +432,32 @@ theorem passOK_rule {p : PassT} (h : passOK p = true) (r : Nat) : ruleOK (p.rule
   · simp only [Array.getD_eq_getD_getElem?, Array.getElem?_eq_none (Nat.le_of_not_lt hr)]
     decide
 
-theorem testConstraint_safe (r : Rule) (c : Ctx) {l : List Nat} {so : Option Nat} (hjo : JO c l so)
+theorem testConstraint_safe (r : Rule) (c : Ctx) {l : List Nat} {so : Option Nat} (hjo : JO c l so) (hsz : c.size + 2 ≤ c.smap.size)
     (hall : ∀ j, Live l (c.smap.getD j none)) (hr : ruleOK r = true)
-    {w : String} (e : testConstraint r c = .error w) : ¬ nullFault w := by
+    {w : String} (e : testConstraint r c = .error w) : ¬ engineFault w := by
   unfold testConstraint at e
   split at e
   · cases e
-  · simp only [] at e
+  · rename_i hrange
+    simp only [] at e
     split at e
     · cases e
     · split at e
       · cases e
       · rename_i hne
         split at e
-        · cases e; unfold nullFault; decide
+        · cases e; unfold engineFault nullFault mapFault; decide
         · rename_i k hk
           unfold ruleOK at hr
           simp only [Bool.and_eq_true, Bool.or_eq_true] at hr
           rcases hr.2 with h1 | h1
           · exact absurd h1 hne
           · obtain ⟨cur', hc, _⟩ := codeOK_run h1 hk
-            exact testConstraint_go_safe c k hjo hall hc _ _ e
+            exact testConstraint_go_safe c k hjo hsz hall hc _ _ (by omega) e
 
-theorem pickRule_safe (p : PassT) (c : Ctx) {l : List Nat} {so : Option Nat} (hjo : JO c l so)
+theorem pickRule_safe (p : PassT) (c : Ctx) {l : List Nat} {so : Option Nat} (hjo : JO c l so) (hsz : c.size + 2 ≤ c.smap.size)
     (hall : ∀ j, Live l (c.smap.getD j none)) (hp : passOK p = true) :
-    ∀ (rs : List Nat) {w : String}, pickRule p c rs = .error w → ¬ nullFault w := by
+    ∀ (rs : List Nat) {w : String}, pickRule p c rs = .error w → ¬ engineFault w := by
   intro rs
   induction rs with
   | nil => intro w e; unfold pickRule at e; cases e
@@ -420,7 +467,7 @@ theorem pickRule_safe (p : PassT) (c : Ctx) {l : List Nat} {so : Option Nat} (hj
     split at e
     · rename_i w' hw
       cases e
-      exact testConstraint_safe _ c hjo hall (passOK_rule hp r) hw
+      exact testConstraint_safe _ c hjo hsz hall (passOK_rule hp r) hw
     · cases e
     · split at e
       · cases e
@@ -509,42 +556,46 @@ theorem adjustSlot_live {l : List Nat} (c : Ctx) (d : Int) (so : Option Nat) (hl
 
 /-- the state in which the action of a rule that passed `testConstraint` starts -/
 theorem action_start (rule : Rule) (c1 : Ctx) {l a w : List Nat} {slot : Nat} (h1 : JO c1 l (some slot)) (hlw : l = a ++ w)
-    (hcells : MapCells c1 w) (hok : ruleOK rule = true) (hne : ¬ rule.action.isEmpty = true)
+    (hcells : MapCells c1 w) (hsz : c1.size + 2 ≤ c1.smap.size) (hok : ruleOK rule = true) (hne : ¬ rule.action.isEmpty = true)
     {st : Status} (ht : testConstraint rule c1 = .ok (true, st)) {k : Code} (hk : mkCode rule.action true = some k) :
     J (enterCtx (startCtx c1)) l ∧ PosOK ⟨rule.pre, rule.sort, false⟩ l (enterCtx (startCtx c1)).is ∧
-    Live l (enterCtx (startCtx c1)).is ∧
+    Live l (enterCtx (startCtx c1)).is ∧ MB (enterCtx (startCtx c1)) ∧
     ∃ cur', curRun ⟨rule.pre, rule.sort, false⟩ k.instrs = some cur' ∧ (cur'.dels = true → k.deletes = true) := by
   unfold ruleOK at hok
   simp only [Bool.and_eq_true, Bool.or_eq_true, decide_eq_true_eq] at hok
   rcases hok.1 with h0 | ⟨hps, hcode⟩
   · exact absurd h0 hne
-  · obtain ⟨i, a', b', hi, hl', hp1, hp2⟩ := testConstraint_start rule c1 hlw hcells hps ht
+  · obtain ⟨i, a', b', hi, hl', hp1, hp2, hcs⟩ := testConstraint_start rule c1 hlw hcells hps ht
     have his : (enterCtx (startCtx c1)).is = some i := by
       show c1.smap.getD (((c1.context : Int) + 1).toNat) none = some i
       have : ((c1.context : Int) + 1).toNat = c1.context + 1 := by omega
       rw [this]; exact hi
     have hil : i ∈ l := by rw [hl']; simp
     refine ⟨⟨show Linked c1.seg l from JO.linked h1, show Clean c1.seg l from JO.clean h1, by rw [his]; exact isok_of_mem hil,
-        show HwOK c1.highwater l from JO.hw h1, show Alloc c1.seg l from JO.alloc h1⟩, ?_, ?_, codeOK_run hcode hk⟩
+        show HwOK c1.highwater l from JO.hw h1, show Alloc c1.seg l from JO.alloc h1⟩, ?_, ?_, ?_, codeOK_run hcode hk⟩
     · rw [his]
       exact .inl ⟨a', b', hl', by simpa using hp1, by simp only []; omega⟩
     · rw [his]; intro y hy; cases hy; exact hil
+    · refine ⟨?_, ?_, hsz⟩
+      · show (0 : Int) ≤ (c1.context : Int) + 1; omega
+      · show (c1.context : Int) + 1 ≤ (c1.size : Int) + 1; omega
 
 /-- **One step of the rule loop from a slot of the stream**, on a pass whose rules passed the loader's cursor tests: whatever
 error the model reports is not a write through a null cursor, and the new cursor is again null or a slot of the stream. -/
 theorem findNDoRule_safe (p : PassT) (c : Ctx) (slot : Nat) {l : List Nat} (h : JO c l (some slot)) (hs : slot ∈ l)
     (hp : passOK p = true) :
-    (∀ {w : String}, findNDoRule p c slot = .error w → ¬ nullFault w) ∧
+    (∀ {w : String}, findNDoRule p c slot = .error w → ¬ engineFault w) ∧
     (∀ {c' : Ctx} {s' : Option Nat} {st : Status}, findNDoRule p c slot = .ok (c', s', st) → ∃ l', JO c' l' s' ∧ Live l' s') := by
   obtain ⟨f1, f2, f3⟩ := runFSM_spec p c slot (JO.linked h) (JO.isok h)
   have f4 := runFSM_live p c slot (JO.linked h) hs
   obtain ⟨a, w, hlw, f5⟩ := runFSM_cells p c slot (JO.linked h) hs
+  have f6 := runFSM_size p c slot
   unfold findNDoRule
-  revert f1 f2 f3 f4 f5
+  revert f1 f2 f3 f4 f5 f6
   generalize runFSM p c slot = r
   obtain ⟨ok, c1, rules⟩ := r
-  intro f1 f2 f3 f4 f5
-  simp only [] at f1 f2 f3 f4 f5 ⊢
+  intro f1 f2 f3 f4 f5 f6
+  simp only [] at f1 f2 f3 f4 f5 f6 ⊢
   have h1 : JO c1 l (some slot) := JO.congr h f1 f2
   have hnx : Live l (c1.seg.get slot).next := by rw [f1]; exact fun y hy => next_mem (JO.linked h) hs y hy
   have hadv : JO c1 l (c1.seg.get slot).next := JO.cursor h1 (isok_opt_mem hnx)
@@ -557,21 +608,24 @@ theorem findNDoRule_safe (p : PassT) (c : Ctx) (slot : Nat) {l : List Nat} (h : 
     · split at e
       · rename_i w2 hw
         cases e
-        exact pickRule_safe p c1 h1 f4 hp rules hw
+        exact pickRule_safe p c1 h1 f6 f4 hp rules hw
       · split at e <;> cases e
       · rename_i r st hpick
         split at e
         · cases e
         · rename_i hne
           split at e
-          · cases e; unfold nullFault; decide
+          · cases e; unfold engineFault nullFault mapFault; decide
           · rename_i k hk
             obtain ⟨st', ht⟩ := pickRule_pick p c1 rules hpick
-            obtain ⟨hj, hpos, hlv, cur', hrun, hd⟩ := action_start _ c1 h1 hlw hcells (passOK_rule hp r) hne ht hk
+            obtain ⟨hj, hpos, hlv, hmb, cur', hrun, hd⟩ := action_start _ c1 h1 hlw hcells f6 (passOK_rule hp r) hne ht hk
             split at e
             · rename_i w2 hw
               cases e
-              exact doAction_noNullFault hj hpos hlv hrun hw
+              intro hf
+              rcases hf with hf | hf
+              · exact doAction_noNullFault hj hpos hlv hrun hw hf
+              · exact doAction_noMapFault hmb hw hf
             · split at e <;> cases e
   · intro c' s' st e
     split at e
@@ -589,7 +643,7 @@ theorem findNDoRule_safe (p : PassT) (c : Ctx) (slot : Nat) {l : List Nat} (h : 
           · cases e
           · rename_i k hk
             obtain ⟨st', ht⟩ := pickRule_pick p c1 rules hpick
-            obtain ⟨hj, hpos, hlv, cur', hrun, hd⟩ := action_start _ c1 h1 hlw hcells (passOK_rule hp r) hne ht hk
+            obtain ⟨hj, hpos, hlv, hmb, cur', hrun, hd⟩ := action_start _ c1 h1 hlw hcells f6 (passOK_rule hp r) hne ht hk
             split at e
             · cases e
             · rename_i ret status slotOut c2 hact
@@ -609,10 +663,10 @@ theorem findNDoRule_safe (p : PassT) (c : Ctx) (slot : Nat) {l : List Nat} (h : 
 /-! ## the rule loop, a pass, a run of passes -/
 
 theorem ruleLoop_safe (p : PassT) (hp : passOK p = true) : ∀ (fuel : Nat) (c : Ctx) (s : Nat) (lc : Int) (it : Nat) {l : List Nat},
-    JO c l (some s) → s ∈ l → ∀ {w : String}, ruleLoop p fuel c s lc it = .error w → ¬ nullFault w := by
+    JO c l (some s) → s ∈ l → ∀ {w : String}, ruleLoop p fuel c s lc it = .error w → ¬ engineFault w := by
   intro fuel
   induction fuel with
-  | zero => intro c s lc it l _ _ w e; unfold ruleLoop at e; cases e; unfold nullFault; decide
+  | zero => intro c s lc it l _ _ w e; unfold ruleLoop at e; cases e; unfold engineFault nullFault mapFault; decide
   | succ f ih =>
     intro c s lc it l h hs w e
     obtain ⟨g1, g2⟩ := findNDoRule_safe p c s h hs hp
@@ -653,7 +707,7 @@ theorem ruleLoop_safe (p : PassT) (hp : passOK p = true) : ∀ (fuel : Nat) (c :
             · exact ih _ s2 _ _ j1 (lv1 s2 rfl) e
 
 theorem runPass_safe (p : PassT) (hp : passOK p = true) (c : Ctx) (fuel : Nat) (h : WF c.seg) {w : String}
-    (e : runPass p c fuel = .error w) : ¬ nullFault w := by
+    (e : runPass p c fuel = .error w) : ¬ engineFault w := by
   obtain ⟨l, hl, hc, hal⟩ := h
   unfold runPass at e
   split at e
